@@ -24,6 +24,7 @@ import (
 	"encoding/json"
 	"errors"
 	"fmt"
+	neturl "net/url"
 	"strings"
 
 	"github.com/Comcast/rulio/core"
@@ -157,9 +158,11 @@ func (c *CroltSimple) Rem(ctx *core.Context, id string) (bool, error) {
 		return false, errors.New("no location in ctx")
 	}
 
-	url := strings.Trim(c.CroltURL, "/rem")
-	url += "?account=" + ctx.Location().Name
-	url += "&id=" + id
+	// (strings.Trim(c.CroltURL, "/rem") strips those characters
+	// from both ends; it doesn't append the path.)
+	url := strings.TrimRight(c.CroltURL, "/") + "/rem"
+	url += "?account=" + neturl.QueryEscape(ctx.Location().Name)
+	url += "&id=" + neturl.QueryEscape(id)
 	ctx.Log(core.INFO, "Cron.Rem", "url", url)
 
 	req := core.NewHTTPRequest(ctx, "GET", url, "")
